@@ -335,6 +335,7 @@ type vfCallback struct {
 	N     int
 	Token string
 	Err   string
+	Send  int // id of the sendRequest call this callback was passed to (0: the shared late-send callback)
 }
 
 type vfSendRec struct {
@@ -342,6 +343,7 @@ type vfSendRec struct {
 	Sender int
 	Err    string
 	IsDup  bool
+	ID     int
 }
 
 func vfRunMuxHistory(rep *verifkit.Report, h int, stall bool) {
@@ -411,6 +413,12 @@ func vfRunMuxHistory(rep *verifkit.Report, h int, stall bool) {
 	var mu sync.Mutex
 	callbacks := map[string][]vfCallback{}
 	var sends []vfSendRec
+	var sendIDs atomic.Int64
+	mkcb := func(sendID int) func(name string, resp *conformancev1.ClientCompatResponse, err error) {
+		return func(name string, resp *conformancev1.ClientCompatResponse, err error) {
+			vfRecordCallback(&mu, callbacks, sendID, name, resp, err)
+		}
+	}
 	cb := func(name string, resp *conformancev1.ClientCompatResponse, err error) {
 		rec := vfCallback{}
 		if err != nil {
@@ -436,8 +444,9 @@ func vfRunMuxHistory(rep *verifkit.Report, h int, stall bool) {
 					time.Sleep(time.Duration(us) * time.Microsecond)
 				}
 				req := &conformancev1.ClientCompatRequest{TestName: n, Service: proto.String("connectrpc.conformance.v1.ConformanceService"), Method: proto.String("Unary")}
-				err := runner.sendRequest(req, cb)
-				rec := vfSendRec{Name: n, Sender: s, IsDup: seen[n]}
+				id := int(sendIDs.Add(1))
+				err := runner.sendRequest(req, mkcb(id))
+				rec := vfSendRec{Name: n, Sender: s, IsDup: seen[n], ID: id}
 				seen[n] = true
 				if err != nil {
 					rec.Err = err.Error()
@@ -577,6 +586,33 @@ func vfRunMuxHistory(rep *verifkit.Report, h int, stall bool) {
 			rep.Violation("mux/unique-name-accepted-twice", fmt.Sprintf("name %q accepted %d times", n, nOK), ww())
 		}
 	}
+	// every callback belongs to a sendRequest call that was accepted, and each accepted call has exactly one
+	acceptedIDs, refusedIDs := map[int]string{}, map[int]string{}
+	for _, sr := range sends {
+		if sr.Err == "" {
+			acceptedIDs[sr.ID] = sr.Name
+		} else {
+			refusedIDs[sr.ID] = sr.Name
+		}
+	}
+	perSend := map[int]int{}
+	for _, cbs := range callbacks {
+		for _, c := range cbs {
+			if c.Send != 0 {
+				perSend[c.Send]++
+			}
+		}
+	}
+	for id, name := range refusedIDs {
+		if perSend[id] > 0 {
+			rep.Violation("mux/callback-of-refused-send-invoked/"+plan.FailKind, fmt.Sprintf("sendRequest(%q) #%d returned an error, but the callback passed to it was invoked %d times", name, id, perSend[id]), wUnlocked(h, plan, assign, sends, callbacks, log, closeAfterUS))
+		}
+	}
+	for id, name := range acceptedIDs {
+		if perSend[id] != 1 {
+			rep.Violation(fmt.Sprintf("mux/accepted-send-callback-count/%d/%s", perSend[id], plan.FailKind), fmt.Sprintf("sendRequest(%q) #%d was accepted; the callback passed to it was invoked %d times", name, id, perSend[id]), wUnlocked(h, plan, assign, sends, callbacks, log, closeAfterUS))
+		}
+	}
 	for n, cbs := range callbacks {
 		known := n == "late/after-wait"
 		for _, x := range names {
@@ -631,7 +667,8 @@ func wUnlocked(h int, plan *vfCliPlan, assign [][]string, sends []vfSendRec, cal
 func TestVerifC10Mux(t *testing.T) {
 	rep := verifkit.Begin("C10", "mux", "histories of runClient(runInProcess(hostile client)): 1-4 concurrent senders share 2-12 uniquely named requests (optionally one name sent twice), closeSend racing with senders; client script per request {answer, defer+reorder, never}, failure {none, exit 0/1 after j reads, garbage, garbage and then keeps consuming stdin, closes stdout and keeps consuming stdin, oversize prefix, frame cut after every byte offset, unknown name, duplicate answer, stops reading stdin, answers before the request is fully read then closes stdin}, 0-2 ms delays inside stdin reads and before answers; every answer carries a unique token; distinct = histories with a request in flight when the failure struck, by (failure, reads, delivered, per-request outcome) signature")
 	defer rep.Write()
-	vfStartIdleScenario() // runs for ~22 s in the background; judged by TestVerifC10ZIdle
+	vfStartIdleScenario()   // runs for ~22 s in the background; judged by TestVerifC10ZIdle
+	vfStartLingerScenario() // ~10 s in the background; judged by TestVerifC10ZLinger
 	n := verifkit.Scale(1500, 40000)
 	var wg sync.WaitGroup
 	sem := make(chan struct{}, 24)
@@ -1239,4 +1276,135 @@ func TestVerifC10ZIdle(t *testing.T) {
 	}
 	rep.Note("after a %v quiet spell: send error %q, callbacks %d, token %q, callback error %q", res.quiet.Round(100*time.Millisecond), res.secondSendErr, res.secondCBs, res.secondTok, res.secondErr)
 	rep.Sample(map[string]any{"history": "A answered; 21.5 s of silence; B", "expect": "B refused, or B answered with the client's own answer"})
+}
+
+
+func vfRecordCallback(mu *sync.Mutex, callbacks map[string][]vfCallback, sendID int, name string, resp *conformancev1.ClientCompatResponse, err error) {
+	rec := vfCallback{Send: sendID}
+	if err != nil {
+		rec.Err = err.Error()
+	} else if resp != nil {
+		rec.Token = resp.GetError().GetMessage()
+		if resp.TestName != name {
+			rec.Err = "callback name " + name + " but response carries " + resp.TestName
+		}
+	}
+	mu.Lock()
+	callbacks[name] = append(callbacks[name], rec)
+	mu.Unlock()
+}
+
+
+// ---- an in-process client whose output ends cleanly but whose goroutine lingers ----
+
+type vfLingerResult struct {
+	answered   bool
+	waitErr    string
+	waitTook   time.Duration
+	waitDone   bool
+	stopTook   time.Duration
+	stopDone   bool
+	lateRefuse bool
+}
+
+var (
+	vfLingerOnce sync.Once
+	vfLingerCh   = make(chan *vfLingerResult, 1)
+)
+
+func vfStartLingerScenario() {
+	vfLingerOnce.Do(func() {
+		go func() {
+			res := &vfLingerResult{}
+			defer func() { vfLingerCh <- res }()
+			release := make(chan struct{})
+			defer close(release)
+			impl := func(_ context.Context, _ []string, in io.ReadCloser, out, _ io.WriteCloser) error {
+				var pre [4]byte
+				if _, err := io.ReadFull(in, pre[:]); err != nil {
+					return nil
+				}
+				buf := make([]byte, binary.BigEndian.Uint32(pre[:]))
+				if _, err := io.ReadFull(in, buf); err != nil {
+					return nil
+				}
+				_, _ = out.Write(vfFrameResp("Linger/first", "answer-for-Linger/first"))
+				_ = out.Close() // the output ends cleanly ...
+				<-release       // ... but the goroutine lingers (a stuck RPC, a leaked worker) and ignores cancellation
+				return nil
+			}
+			ctx, cancel := context.WithCancel(context.Background())
+			defer cancel()
+			runner, err := runClient(ctx, runInProcess([]string{"lingering-client"}, impl))
+			if err != nil {
+				return
+			}
+			first := make(chan struct{})
+			_ = runner.sendRequest(&conformancev1.ClientCompatRequest{TestName: "Linger/first"}, func(_ string, resp *conformancev1.ClientCompatResponse, err error) {
+				res.answered = err == nil && resp.GetError().GetMessage() == "answer-for-Linger/first"
+				close(first)
+			})
+			select {
+			case <-first:
+			case <-time.After(15 * time.Second):
+				return
+			}
+			runner.closeSend()
+			start := time.Now()
+			waitC := make(chan error, 1)
+			go func() { waitC <- runner.waitForResponses() }()
+			select {
+			case err := <-waitC:
+				res.waitDone, res.waitTook = true, time.Since(start)
+				res.waitErr = fmt.Sprint(err)
+			case <-time.After(40 * time.Second):
+				res.waitTook = time.Since(start)
+				return
+			}
+			res.lateRefuse = runner.sendRequest(&conformancev1.ClientCompatRequest{TestName: "Linger/late"}, func(string, *conformancev1.ClientCompatResponse, error) {}) != nil
+			start = time.Now()
+			stopC := make(chan struct{})
+			go func() { runner.stop(); close(stopC) }()
+			select {
+			case <-stopC:
+				res.stopDone, res.stopTook = true, time.Since(start)
+			case <-time.After(40 * time.Second):
+				res.stopTook = time.Since(start)
+			}
+		}()
+	})
+}
+
+// TestVerifC10ZLinger judges the lingering-client scenario.
+func TestVerifC10ZLinger(t *testing.T) {
+	rep := verifkit.Begin("C10", "linger", "in-process client that answers one request, closes its output cleanly and then neither returns nor reacts to cancellation; closeSend, waitForResponses, a late send, stop; oracle: the request got its answer, waitForResponses and stop return within the progress bound (40 s; the graceful periods add up to about 8 s), the late send is refused; distinct = outcome")
+	defer rep.Write()
+	vfStartLingerScenario()
+	var res *vfLingerResult
+	select {
+	case res = <-vfLingerCh:
+	case <-time.After(120 * time.Second):
+		rep.Violation("mux/linger/not-terminating", "the lingering-client scenario did not finish within 120 s", nil)
+		return
+	}
+	rep.Eval(1)
+	rep.DistinctKey(res.waitDone, res.stopDone)
+	w := map[string]any{"answered": res.answered, "wait_returned": res.waitDone, "wait_took_ms": res.waitTook.Milliseconds(), "wait_error": res.waitErr, "stop_returned": res.stopDone, "stop_took_ms": res.stopTook.Milliseconds(), "late_send_refused": res.lateRefuse}
+	if !res.answered {
+		rep.Inconcl(fmt.Sprintf("linger scenario: the first request was not answered (%v)", w))
+		return
+	}
+	if !res.waitDone {
+		rep.Violation("mux/linger/wait-does-not-return", fmt.Sprintf("waitForResponses had not returned %v after the client's output ended cleanly (its goroutine lingers)", res.waitTook.Round(time.Second)), w)
+		return
+	}
+	if !res.lateRefuse {
+		rep.Violation("mux/linger/late-send-accepted", "a send after the client's output ended was accepted", w)
+	}
+	if !res.stopDone {
+		rep.Violation("mux/linger/stop-does-not-return", "stop() did not return within the progress bound", w)
+	}
+	rep.Count("linger_wait_returned", 1)
+	rep.Note("waitForResponses returned after %v (%s), stop after %v", res.waitTook.Round(100*time.Millisecond), res.waitErr, res.stopTook.Round(100*time.Millisecond))
+	rep.Sample(map[string]any{"client": "answers, closes stdout, lingers", "expect": "waitForResponses returns after the graceful periods"})
 }
